@@ -267,13 +267,24 @@ impl Gen {
         self.holes += 1;
         if self.ill_at == Some(self.holes) {
             // one hole of the well-typed tree is filled with an expression of another type
-            let wrong = match t {
+            let mut wrong = match t {
                 Ty::Bool => Ty::Str,
                 Ty::Str => Ty::Int("int32"),
                 Ty::Int(_) => Ty::Bool,
                 Ty::Unit => Ty::Int("int32"),
                 _ => Ty::Bool,
             };
+            // half of the time ANY other primitive type (another integer width, a float, …): a near miss such as
+            // float-for-int or int64-for-int32 takes other paths through the typer than bool-for-int does
+            if self.rng.chance(1, 2) {
+                for _ in 0..4 {
+                    let w = self.prim();
+                    if w != *t {
+                        wrong = w;
+                        break;
+                    }
+                }
+            }
             if let Some(snip) = self.ill_snippet.clone() {
                 let tail = self.leaf(t, env);
                 let e = self.blk(t, env, format!("{} {}", snip, tail));
